@@ -26,6 +26,7 @@ const distinct = new Set();
 const samples = [];
 const violations = new Map();
 const inconclusive = {};
+const aux = {};
 let evaluations = 0;
 
 const ctx = {
@@ -63,6 +64,9 @@ const ctx = {
       return;
     }
     violations.set(signature, { signature, clause, detail, replay: { property: prop, seed, tier, shard, signature, clause, ...replay }, count: 1 });
+  },
+  aux(key, value) {
+    aux[key] = value;
   },
   elapsed() {
     return (Date.now() - t0) / 1000;
@@ -102,6 +106,7 @@ const result = {
   samples,
   counters,
   inconclusive,
+  aux,
   violations: [...violations.values()],
   wall_s: ctx.elapsed(),
   compiler_restarts: ctx.compiler.restarts,
